@@ -13,6 +13,7 @@ V: the replay events, seeded random bigger trees/archives (also truncated archiv
 import json
 import os
 import random
+import time
 
 from lib import vk
 
@@ -97,7 +98,11 @@ def signature(e, why, expected):
         for x in eb:
             if x not in ob:
                 d = {"c": x[1]}
-                kind = next((it["kind"] for it in items if text(it[key]).endswith(x[0])), "unknown")
+                if mode == "archive":
+                    kind = next((it["kind"] for it in items if it["kind"] == "reg" and
+                                 "/".join(text(it[key]).split("/")[e["strip"]:]) == x[0]), "unknown")
+                else:
+                    kind = next((it["kind"] for it in items if text(it[key]) == x[0]), "unknown")
                 return "%s:%s:%s" % (sig, kind, content_class(d))
     return sig
 
@@ -118,7 +123,7 @@ def run(ctx):
         raise vk.Inconclusive("archive scripts printed (%d) != scenarios enumerated (%d)" % (len(arch_scripts), res.distinct // 2))
     all_dir, all_arch = len(dir_scripts), len(arch_scripts)
     rnd = random.Random(ctx.seed)
-    nd, na = ctx.pick(180, 3000), ctx.pick(180, 3000)
+    nd, na = ctx.pick(120, 600), ctx.pick(120, 600)
     if len(dir_scripts) > nd:
         dir_scripts = rnd.sample(dir_scripts, nd)
     if len(arch_scripts) > na:
@@ -155,8 +160,10 @@ def run(ctx):
         for f in (prog, phase):
             if os.path.exists(f):
                 os.remove(f)
-        env = dict(env, VERIF_OUT=trace, C15_RANDOM=ctx.pick(100, 1200))
+        env = dict(env, VERIF_OUT=trace, C15_RANDOM=ctx.pick(70, 300))
+        t0 = time.time()
         rc, out = ctx.run_bin(binp, run_, env=env, timeout=6000)
+        ctx.log("driver %s: rc=%d in %.1fs" % (name, rc, time.time() - t0))
         if rc != 0 or "--- PASS" not in out:
             if (os.path.exists(prog) and os.path.exists(phase) and json.load(open(phase)) == "indexing"
                     and "--- FAIL" not in out and rc != 124):
